@@ -2,7 +2,8 @@
 """save_seed.py <id> <name> : copies /tmp/seed-out/<id>/ into /verif/seeded/<name>/ after running confirm + try."""
 import json, os, shutil, subprocess, sys
 sid, name = sys.argv[1], sys.argv[2]
-src = '/tmp/seed-out/%s' % sid
+pfx = os.environ.get('SEED_PREFIX', 'seed')
+src = '/tmp/%s-out/%s' % (pfx, sid)
 dst = '/verif/seeded/%s' % name
 os.makedirs(dst, exist_ok=True)
 conf = subprocess.run(['/verif/tools/confirm_seed.sh', sid], capture_output=True, text=True).stdout.strip().splitlines()[-1]
